@@ -287,6 +287,13 @@ def audit_common_rep(premises, r1, r2):
 def analyse_two(ctx, mod, k, s, d, r1, r2, units, findings):
     nob = ndis = 0
     base = "two:%s,%s:%s,%s" % (s.name, d.name, r1, r2)
+    # premise of the statement: the displacement between the two origins, counted in the common
+    # point unit, is representable in the common rep (otherwise nothing is claimed)
+    mC = units["c"][0]
+    rc = model.canon(model.common_type(r1, r2))
+    lo, hi = model.int_range(rc)
+    if not (lo <= (s.o - d.o) / mC <= hi and lo <= (d.o - s.o) / mC <= hi) or not (s.m / mC <= hi and d.m / mC <= hi):
+        return 0, 0
     # comparisons
     for nm, op in CMPS:
         nob += 1
